@@ -1,5 +1,6 @@
 import KmipProofs.SessionLemmas
 import KmipProofs.WireLemmas
+import KmipProofs.SessionWire
 /-
   C07 — the server answers every request exactly once, in order, or closes the connection.
 
@@ -253,3 +254,60 @@ theorem C07_wire_no_response (zNonce zExt : Val) (clock : Nat) (authOk : Bool) (
       · rw [if_pos h]
 
 end Kmip.Wire
+
+/-! ### the two models of `handleBatch` agree -/
+namespace Kmip.SessionWire
+open Kmip Kmip.Session Kmip.Wire
+
+/-- The session model (whether a request is answered; abstract payloads) and the message model (what the Response is, as a value
+    of the schema) describe the same function of the code from two sides. On any request both describe - same header fields,
+    same items, handler outcomes of the same status and reason - whose response can be encoded and written: the session model
+    sends a response exactly when the message model builds one, and that Response value carries the header fields and, item by
+    item, the operation, batch item ID, status and reason of the session model's response. -/
+theorem C07_models_agree (cfg : Cfg) (k : Nat) (r : Req) (rq : ReqView) (H : Nat → ItemIn → HRes) (zNonce zExt : Val) (req : Val)
+    (hv : reqView req = some rq) (h : Represents cfg r rq H)
+    (hsmall : r.items.length < 2147483648) (henc : r.items.all (itemEncodable cfg.registered) = true) (hw : r.writeOk = true) :
+    ((handleReq cfg k r).2 = true ↔ ∃ resp, handleBatch zNonce zExt r.clock ((authStep cfg k r).2.isSome) H req = some resp) ∧
+    (∀ resp, handleBatch zNonce zExt r.clock ((authStep cfg k r).2.isSome) H req = some resp →
+      resp = .struct [
+        .one (.struct [.one (.struct [.one (.int (respOf cfg r).version.1), .one (.int (respOf cfg r).version.2)]),
+                       .one (.time (respOf cfg r).clock), .one zNonce, .many [], .one (.text (respOf cfg r).corr), .one (.text []),
+                       .one (.int (respOf cfg r).batchCount)]),
+        .many (respItems zExt H 0 rq.items)] ∧
+      (respItems zExt H 0 rq.items).map itemFacts = (respOf cfg r).items.map (fun x => some (resFacts x))) := by
+  have hA := agree_on_answering cfg k r rq H h hsmall henc hw
+  have hE := handleBatch_eq zNonce zExt r.clock ((authStep cfg k r).2.isSome) H req
+  rw [hv] at hE
+  simp only at hE
+  constructor
+  · rw [hA, hE]
+    cases answers ((authStep cfg k r).2.isSome) rq <;> simp
+  · intro resp hr
+    rw [hE] at hr
+    cases ha : answers ((authStep cfg k r).2.isSome) rq
+    · simp [ha] at hr
+    · simp only [ha, if_true, Option.some.injEq] at hr
+      subst hr
+      exact ⟨agree_on_header cfg r rq H zNonce zExt h, agree_on_items cfg r rq H zExt h⟩
+
+/-- non-vacuity: a two-item request (a Get that succeeds, a Destroy nobody handles) is represented -/
+def exCfgSW : Cfg :=
+  { readTimeout := false, writeTimeout := false, tls := false, handshakeOk := true, sessionAuth := none
+    hasRequestAuth := false, registered := [10], sessionId := 1 }
+def exReqSW : Req :=
+  { version := (1, 4), corr := [99], batchCount := 2, async := false, credType := 0, authRes := .fail, clock := 7, writeOk := true
+    items := [{ op := 10, uid := [1], payload := 0, beh := .success 5 true }, { op := 20, uid := [], payload := 1, beh := .nilResult }] }
+def exViewSW : ReqView :=
+  { version := .struct [.one (.int 1), .one (.int 4)], corr := [99], async := false, credType := 0, batchCount := 2
+    items := [{ op := 10, uid := [1], payload := .nil }, { op := 20, uid := [], payload := .nil }] }
+def exHSW : Nat → ItemIn → HRes := fun i _ => if i = 0 then HRes.success .nil else HRes.failed 5 []
+
+example : Represents exCfgSW exReqSW exViewSW exHSW := by
+  refine ⟨rfl, rfl, rfl, rfl, rfl, by decide, ?_⟩
+  intro i it sit hi hs
+  match i with
+  | 0 => simp [exViewSW, exReqSW] at hi hs; subst hi; subst hs; decide
+  | 1 => simp [exViewSW, exReqSW] at hi hs; subst hi; subst hs; decide
+  | n + 2 => simp [exViewSW] at hi
+
+end Kmip.SessionWire
